@@ -277,7 +277,16 @@ static void run_line(const std::string &line) {
             for (size_t i = 0; i < n; i++) for (int j = 0; j < d; j++) { lo[j] = std::min(lo[j], pts[i * d + j]); hi[j] = std::max(hi[j], pts[i * d + j]); }
             if (g.isFourier()) { std::vector<double> a(d, 0.0), b(d, 1.0); if (g.isSetDomainTransfrom()) g.getDomainTransform(a, b);
                 for (int j = 0; j < d; j++) { lo[j] = a[j]; hi[j] = b[j]; } }
-            for (int j = 0; j < d; j++) if (hi[j] <= lo[j]) { lo[j] -= 0.5; hi[j] += 0.5; }
+            {   // a dimension with a single node: probe the true domain of that dimension (the documented identities speak about points of the domain)
+                TypeOneDRule rl = g.getRule();
+                bool unbounded = (rl == rule_gausslaguerre || rl == rule_gausslaguerreodd || rl == rule_gausshermite || rl == rule_gausshermiteodd);
+                std::vector<double> a(d, -1.0), b(d, 1.0); bool tr = g.isSetDomainTransfrom(); if (tr) g.getDomainTransform(a, b);
+                for (int j = 0; j < d; j++) if (hi[j] <= lo[j]) {
+                    if (!unbounded) { lo[j] = a[j]; hi[j] = b[j]; }
+                    else if (rl == rule_gausshermite || rl == rule_gausshermiteodd) { lo[j] -= 0.5; hi[j] += 0.5; }
+                    else { hi[j] += 0.5; }      // Gauss-Laguerre: [a, inf), stay to the right of the node
+                }
+            }
             auto rnd = [&]() -> double { seed = mix(seed + 0x9e3779b97f4a7c15ULL); return (double) (seed >> 11) / 9007199254740992.0; };
             for (int i = 0; i < nr; i++) for (int j = 0; j < d; j++) s.probe.push_back(lo[j] + (hi[j] - lo[j]) * rnd());
             if (only_random) { pd("probe", s.probe); return; }
